@@ -69,6 +69,10 @@ def tmpl_cases(tier):
     for a in SPECIAL_ARCHS:
         for neg in (False, True):
             cases.append(dict(spec=dict(base, qual=a, archs=[a, 'sym'], neg=neg), hi=None, L=1))
+    # version numbers that are legal but not in canonical form must come back verbatim
+    for vt in (b'0:1.0-1', b'01:3.1', b'1.0-', b'0:1:2-', b'1-2-', b'00', b'1.0~', b'0:0'):
+        for op in ('e', '='):
+            cases.append(dict(spec=dict(kind='pkg', qual=None, order=['ver'], op=op, profs=[], ver_text=vt), hi=None, L=1))
     return cases
 
 
